@@ -402,3 +402,13 @@ def pmap(func, items, procs=16, chunksize=1):
     ctx = mp.get_context("fork")
     with ctx.Pool(min(procs, len(items))) as pool:
         return pool.map(func, items, chunksize)
+
+
+def tmap(func, items, threads=16):
+    """thread-based parallel map for subprocess-bound work (real pytest sessions)"""
+    from concurrent.futures import ThreadPoolExecutor
+    items = list(items)
+    if len(items) <= 1:
+        return [func(x) for x in items]
+    with ThreadPoolExecutor(min(threads, len(items))) as ex:
+        return list(ex.map(func, items))
